@@ -1,5 +1,105 @@
-import AffVerif.Model.Schema
-import AffVerif.Model.Spec
-/-! # C17 — predefined trees equal their definitions (theorems added below as they are proved) -/
+import AffVerif.Proofs.SchemaLemmas
+/-!
+# C17 — predefined trees equal their mathematical definitions everywhere
+
+For every dimension `n`, component `r < n`, parameter value and input of length `n` — breakpoints included,
+because the comparisons in `Spec.*` are the very comparisons that decide the label (`≤` routes to the closed
+side).  `Spec.onComp x r φ` replaces component `r` by `φ (x_r)` and leaves the others untouched.
+Proved here: the six per-neuron activations.  `argmax`, `class_characterization`, `inf_norm`, `from_poly` and
+`from_slice`/`remove_axes` are covered by the correspondence check with exact comparison of the generated trees
+against the model trees and of their values at breakpoints and ties; their theorems are listed as open in DESIGN.md.
+-/
+set_option linter.unusedSectionVars false
+set_option linter.unusedVariables false
 namespace AV
+variable {α : Type} [Field α] [LinearOrder α] [IsStrictOrderedRing α]
+
+theorem C17_relu (n r : Nat) (x : List α) (hr : r < n) (hx : x.length = n) :
+    PT.eval (Sch.partialReLU n r) x = some (Spec.onComp x r Spec.relu) := by
+  unfold Sch.partialReLU
+  rw [eval_dec _ _ _ _ x (by simp), label_unit n r x hr]
+  unfold Spec.onComp Spec.relu
+  by_cases h : x.getD r 0 ≤ 0
+  · simp only [h, if_true, Option.bind_some, eval_leaf, apply_zeroIdx n r x hx]
+  · simp only [h, if_false, Option.bind_some, eval_leaf, apply_identity n x hx, set_getD_self]
+
+theorem C17_leaky_relu (n r : Nat) (a : α) (x : List α) (hr : r < n) (hx : x.length = n) :
+    PT.eval (Sch.partialLeakyReLU n r a) x = some (Spec.onComp x r (Spec.leakyRelu a)) := by
+  unfold Sch.partialLeakyReLU
+  rw [eval_dec _ _ _ _ x (by simp), label_unit n r x hr]
+  unfold Spec.onComp Spec.leakyRelu
+  by_cases h : x.getD r 0 ≤ 0
+  · simp only [h, if_true, Option.bind_some, eval_leaf, apply_diagIdx n r a x hx]
+  · simp only [h, if_false, Option.bind_some, eval_leaf, apply_identity n x hx, set_getD_self]
+
+theorem C17_hard_tanh (n r : Nat) (lo hi : α) (x : List α) (hr : r < n) (hx : x.length = n) :
+    PT.eval (Sch.partialHardTanh n r lo hi) x = some (Spec.onComp x r (Spec.hardTanh lo hi)) := by
+  unfold Sch.partialHardTanh
+  rw [eval_dec _ _ _ _ x (by simp), label_axisPred n r _ _ x hr]
+  unfold Spec.onComp Spec.hardTanh
+  by_cases h : hi ≤ x.getD r 0
+  · have h' : -1 * x.getD r 0 - -hi ≤ 0 := by linarith
+    simp only [h', h, if_true, Option.bind_some, eval_leaf, apply_setConst n r hi x hx]
+  · have h' : ¬ (-1 * x.getD r 0 - -hi ≤ 0) := by intro hc; apply h; linarith
+    simp only [h', h, if_false, Option.bind_some]
+    rw [eval_dec _ _ _ _ x (by simp), label_axisPred n r _ _ x hr]
+    by_cases h2 : x.getD r 0 ≤ lo
+    · have h2' : 1 * x.getD r 0 - lo ≤ 0 := by linarith
+      simp only [h2', h2, if_true, Option.bind_some, eval_leaf, apply_setConst n r lo x hx]
+    · have h2' : ¬ (1 * x.getD r 0 - lo ≤ 0) := by intro hc; apply h2; linarith
+      simp only [h2', h2, if_false, Option.bind_some, eval_leaf, apply_identity n x hx, set_getD_self]
+
+theorem C17_hard_shrink (n r : Nat) (lam : α) (x : List α) (hr : r < n) (hx : x.length = n) :
+    PT.eval (Sch.partialHardShrink n r lam) x = some (Spec.onComp x r (Spec.hardShrink lam)) := by
+  unfold Sch.partialHardShrink
+  rw [eval_dec _ _ _ _ x (by simp), label_axisPred n r _ _ x hr]
+  unfold Spec.onComp Spec.hardShrink
+  by_cases h : lam < x.getD r 0
+  · have h' : ¬ (1 * x.getD r 0 - lam ≤ 0) := by intro hc; linarith
+    simp only [h', h, if_false, if_true, Option.bind_some, eval_leaf, apply_identity n x hx, set_getD_self]
+  · have h' : 1 * x.getD r 0 - lam ≤ 0 := by push Not at h; linarith
+    simp only [h', h, if_true, if_false, Option.bind_some]
+    rw [eval_dec _ _ _ _ x (by simp), label_axisPred n r _ _ x hr]
+    by_cases h2 : x.getD r 0 < -lam
+    · have h2' : ¬ (-1 * x.getD r 0 - lam ≤ 0) := by intro hc; linarith
+      simp only [h2', h2, if_false, if_true, Option.bind_some, eval_leaf, apply_identity n x hx, set_getD_self]
+    · have h2' : -1 * x.getD r 0 - lam ≤ 0 := by push Not at h2; linarith
+      simp only [h2', h2, if_true, if_false, Option.bind_some, eval_leaf, apply_zeroIdx n r x hx]
+
+/-- hard sigmoid with the constants of the code as parameters: `three = 3`, `sixth` (the code uses the `f64`
+    value of `1/6`), `half = 1/2`; instantiate with `sixth = 1/6` for the textbook function -/
+theorem C17_hard_sigmoid (n r : Nat) (three sixth half : α) (x : List α) (hr : r < n) (hx : x.length = n) :
+    PT.eval (Sch.partialHardSigmoid n r three sixth half) x =
+      some (Spec.onComp x r (Spec.hardSigmoid three sixth half)) := by
+  unfold Sch.partialHardSigmoid
+  rw [eval_dec _ _ _ _ x (by simp), label_axisPred n r _ _ x hr]
+  unfold Spec.onComp Spec.hardSigmoid
+  by_cases h : three ≤ x.getD r 0
+  · have h' : -1 * x.getD r 0 - -three ≤ 0 := by linarith
+    simp only [h', h, if_true, Option.bind_some, eval_leaf, apply_setConst n r 1 x hx]
+  · have h' : ¬ (-1 * x.getD r 0 - -three ≤ 0) := by intro hc; apply h; linarith
+    simp only [h', h, if_false, Option.bind_some]
+    rw [eval_dec _ _ _ _ x (by simp), label_axisPred n r _ _ x hr]
+    by_cases h2 : x.getD r 0 ≤ -three
+    · have h2' : 1 * x.getD r 0 - -three ≤ 0 := by linarith
+      simp only [h2', h2, if_true, Option.bind_some, eval_leaf, apply_setConst n r 0 x hx]
+    · have h2' : ¬ (1 * x.getD r 0 - -three ≤ 0) := by intro hc; apply h2; linarith
+      simp only [h2', h2, if_false, Option.bind_some, eval_leaf, apply_scaleShift n r sixth half x hx]
+
+theorem C17_threshold (n r : Nat) (thr v : α) (x : List α) (hr : r < n) (hx : x.length = n) :
+    PT.eval (Sch.partialThreshold n r thr v) x = some (Spec.onComp x r (Spec.threshold thr v)) := by
+  unfold Sch.partialThreshold
+  rw [eval_dec _ _ _ _ x (by simp), label_axisPred n r _ _ x hr]
+  unfold Spec.onComp Spec.threshold
+  by_cases h : x.getD r 0 ≤ thr
+  · have h' : 1 * x.getD r 0 - thr ≤ 0 := by linarith
+    simp only [h', h, if_true, Option.bind_some, eval_leaf, apply_setConst n r v x hx]
+  · have h' : ¬ (1 * x.getD r 0 - thr ≤ 0) := by intro hc; apply h; linarith
+    simp only [h', h, if_false, Option.bind_some, eval_leaf, apply_identity n x hx, set_getD_self]
+
+/-! non-vacuity: ReLU on the second of three components, at the breakpoint and on both sides -/
+example : PT.eval (Sch.partialReLU 3 1 : PT Rat) [5, 0, -2] = some [5, 0, -2] := by decide +kernel
+example : PT.eval (Sch.partialReLU 3 1 : PT Rat) [5, -7, -2] = some [5, 0, -2] := by decide +kernel
+example : PT.eval (Sch.partialHardShrink 1 0 (2 : Rat)) [2] = some [0] := by decide +kernel
+
 end AV
